@@ -264,6 +264,7 @@ def parseCfg : List String → Cfg → Option Cfg
       | "wait" => parseCfg rest cfg
       | "bm" => parseCfg rest cfg
       | "tt" => parseCfg rest cfg
+      | "b" => parseCfg rest cfg          -- (C08) burst submitted once the session is established: no credential matter
       | _ => none
     | _ => none
 
